@@ -233,5 +233,6 @@ def run(ctx: Ctx):
         "every float leaf / mismatch with different leaf shapes."
     )
     ctx.assumptions = ["Python-scalar hyper-parameters are compared at float32 precision (they pass through jax.debug.callback)", "temporary directories under the system temp dir"]
+    ctx.clear_caches_every = 150  # every case builds networks of new shapes
     ctx.run_given("roundtrip", roundtrip_cases(), oracle_roundtrip, ctx.n(110, 3000), shrink=False)
     ctx.run_given("mismatch", mismatch_cases(), oracle_mismatch, ctx.n(90, 2500), shrink=False)
